@@ -34,6 +34,10 @@ SITE_FILES = {
     f"{SITE_REL}/pippkg/inner.py": "import pipmod\n\ndef pip_g(p):\n    pipmod.pip_f(p)\n    return p.own_pip_g\n",
     # a PEP 420 namespace package: no __init__.py
     f"{SITE_REL}/nsp/plugin.py": "def nsp_f(p):\n    return p.own_nsp_f\n",
+    # a package installed as a symlink to a directory elsewhere
+    f"{SITE_REL}/linkedpkg": "@symlink:../../../../linked_src/linkedpkg",
+    "linked_src/linkedpkg/__init__.py": "",
+    "linked_src/linkedpkg/core.py": "def linked_f(p):\n    return p.own_linked_f\n",
 }
 
 
@@ -51,6 +55,9 @@ def repo_key(tier: str) -> str:
 
 
 # ---- the specification side: the import graph as Python would resolve it ------------------------
+INSTALLED_AS: dict[str, str] = {}
+
+
 def find_module_file(name: str, search: list[str]) -> str | None:
     """The file Python's path finder gives for a dotted module name, without importing anything."""
     parts = name.split(".")
@@ -65,7 +72,10 @@ def find_module_file(name: str, search: list[str]) -> str | None:
             return None
     if spec is None or spec.origin in (None, "built-in", "frozen") or not os.path.isfile(spec.origin) or not spec.origin.endswith(".py"):
         return None          # extension / frozen / built-in modules have no source to analyse
-    return os.path.realpath(spec.origin)
+    real = os.path.realpath(spec.origin)
+    if real != spec.origin:
+        INSTALLED_AS[real] = spec.origin       # reached through a symlink: classified by where it is installed
+    return real
 
 
 def module_name_of_file(path: str, search: list[str]) -> str | None:
@@ -142,6 +152,8 @@ def source_graph(root: Path, target: str, search: list[str]):
 
 def classify(origin: str, root: Path) -> int:
     site = os.path.realpath(root / SITE_REL)
+    # a package that sits in site-packages as a symlink (flit install --symlink, editable layouts) is pip-installed
+    origin = INSTALLED_AS.get(origin, origin)
     if origin.startswith(site + os.sep):
         return 2
     if origin.startswith(os.path.realpath(STDLIB_DIR) + os.sep) and "site-packages" not in origin:
@@ -266,9 +278,10 @@ def gen_projects(rng: random.Random, tier: str) -> list[dict]:
         files = dict(sp["files"])
         # the target calls into the site-packages modules it imports, so a wrongly followed module shows in the results
         if rng.random() < 0.6:
-            files["target.py"] = "from nsp.plugin import nsp_f\nfrom pippkg import pip_g\n" + files["target.py"] + "\ndef uses_site(p):\n    nsp_f(p)\n    return pip_g(p)\n"
+            files["target.py"] = ("from nsp.plugin import nsp_f\nfrom pippkg import pip_g\nfrom linkedpkg.core import linked_f\n" + files["target.py"]
+                                  + "\ndef uses_site(p):\n    nsp_f(p)\n    linked_f(p)\n    return pip_g(p)\n")
         extra_imports = rng.sample(["import pipmod", "from pippkg import pip_g", "import colorsys", "import keyword", "import rattr", "from pipmod import pip_f",
-                                    "import json", "import os", "from nsp.plugin import nsp_f", "import nsp.plugin as nspp"], rng.randint(1, 4))
+                                    "import json", "import os", "from nsp.plugin import nsp_f", "import nsp.plugin as nspp", "from linkedpkg.core import linked_f", "import linkedpkg.core as lkc"], rng.randint(1, 4))
         victims = rng.sample(sorted(files), min(len(files), rng.randint(1, 3)))
         for v in victims:
             files[v] = "\n".join(rng.sample(extra_imports, rng.randint(1, len(extra_imports)))) + "\n" + files[v]
